@@ -974,7 +974,10 @@ class SStr(SSeq):
                     raise Unsupported("multi-char case mapping")
                 continue
             if not truth(mk_bool(c < 128)):
-                raise Unsupported("%s() of a non-ASCII symbolic character" % what)
+                # stated exclusion: Unicode case mapping is table-driven and can change the length
+                label = "%s() of a non-ASCII symbolic character" % what
+                E.assume_counts[label] = E.assume_counts.get(label, 0) + 1
+                raise PathAbort("assume")
             out.append(z3.If(z3.And(c >= lo, c <= hi), c + delta, c))
         return SStr(out).simp()
 
@@ -1340,7 +1343,7 @@ def _alarm(signum, frame):
     raise PathTimeout("path wall-clock limit exceeded")
 
 
-def explore(fn, prefixes=None, max_paths=None, path_timeout=120, on_path=None):
+def explore(fn, prefixes=None, max_paths=None, path_timeout=120, on_path=None, max_seconds=None):
     """Explore the subtrees rooted at `prefixes` (default: whole tree).
 
     fn() runs one path of the harness and returns a result; `on_path(result)`
@@ -1348,10 +1351,13 @@ def explore(fn, prefixes=None, max_paths=None, path_timeout=120, on_path=None):
     unexplored prefixes (non-empty only if max_paths was hit)."""
     E.worklist = list(prefixes) if prefixes is not None else [[]]
     done = 0
+    t_end = time.time() + max_seconds if max_seconds else None
     old = signal.signal(signal.SIGALRM, _alarm)
     try:
         while E.worklist:
             if max_paths is not None and done >= max_paths:
+                break
+            if t_end is not None and done and time.time() > t_end:
                 break
             prefix = E.worklist.pop()
             E.start_path(prefix)
